@@ -174,6 +174,17 @@ def one_case(ctx, index, rng: random.Random):
     if mkind in ("radial", "azimuthal") and rng.random() < 0.3:
         block = np.full(rng.choice([(3, 2), (2, 3), (2, 2, 2)]), 0.5)
         h0 = klass(np.array([0.0, 1.0, 2.0]))
+        # untransformed points come as (N, 2) or (N, 3): a block with more axes is not a list of points, however legal its last axis
+        block3 = np.full(rng.choice([(4, 5, 2), (2, 2, 3), (3, 1, 2)]), 0.4)
+        try:
+            with warnings.catch_warnings():
+                warnings.simplefilter("ignore")
+                h0.fill_n(block3)
+            rec.fail(monitor="C15.transform", op=f"{kind}.fill_n", symptom="a block of points with three axes was flattened and booked instead of refused", diff=["not_refused"],
+                     detail={"shape": block3.shape, "total": float(h0.total)})
+        except Exception:
+            pass
+        h0 = klass(np.array([0.0, 1.0, 2.0]))
         for how_, call_ in (("fill_n", lambda: h0.fill_n(block.copy(), transformed=True)),
                             ("facade", lambda: (sp.radial if mkind == "radial" else sp.azimuthal)(block.copy(), bins=np.array([0.0, 1.0, 2.0]), transformed=True))):
             try:
@@ -342,6 +353,15 @@ def one_case(ctx, index, rng: random.Random):
                 rec.monitor_error("C15.projection.narrow", e)
                 src = a
         a_full, a = a, src
+        relabelled = False
+        if rng.random() < 0.3:
+            # the user's own labels for the coordinates: which special type a projection has depends on the coordinates kept, not on
+            # what they are called
+            with attach.quiet():
+                a = a.copy()
+                a.axis_names = tuple(rng.choice([f"my_{i}", f"coordinate {i}", "x" * (i + 1)]) for i in range(a.ndim))
+            relabelled = True
+            desc = {**desc, "axis_names": list(a.axis_names)}
         for axes, cname in cmap.items():
             given = [a.axis_names[i] if rng.random() < 0.5 else i for i in axes]
             if rng.random() < 0.5:
